@@ -18,7 +18,7 @@ RULE = (
     "C09 (cumsum/cumint), C11 (grid ufuncs) or a transform / metric-operation template, executed once to make sure it is "
     "accepted, and then ONE ill-posing edit from the listed classes is applied: unknown axis (replacing or added), data "
     "without / with two dimensions of the axis, `to` = same position / a position the axis lacks / an unknown word, unknown "
-    "boundary word (scalar, for the operated axis, for another axis), non-numeric fill value ('a', object(); scalar or in a "
+    "boundary word (scalar, for the operated axis, for another axis), non-numeric fill value (strings incl. numeric-looking ones such as '1', 'nan', '1e3', bytes, object(); scalar or in a "
     "mapping), transform along a periodic axis, non-monotonic or repeated conservative bins, conservative transform "
     "without outer, each ufunc input in turn on a wrong position, wrong number of inputs, wrong number / arity of axis "
     "entries. Every edit is tagged consulted / unconsulted (e.g. a bogus word for a shift that needs no padding). Oracle: "
@@ -58,6 +58,10 @@ def gen_case(rng, i, tier):
     base = c09.gen_case(rng, i, tier)
     return {"corpus": corpus, "base": base, "edit": rng.choice(METRIC_EDITS), "op": rng.choice(["integrate", "average", "get_metric", "derivative", "cumint"]),
             "pick": rng.getrandbits(16)}
+
+
+# strings (also those that merely *look* like numbers) and bytes are not numbers
+NONNUMERIC = ["a", "1", "nan", "1e3", "-inf", " 2 ", "", b"1", "abc"]
 
 
 class _NotNumber:
@@ -173,12 +177,12 @@ def run_ops(ctx, desc, cumsum):
         kw2["boundary"] = m
         consulted = False
     elif edit in ("fill-nonnumeric-scalar", "fill-object"):
-        kw2["fill_value"] = "a" if edit == "fill-nonnumeric-scalar" else _NotNumber()
+        kw2["fill_value"] = NONNUMERIC[pick % len(NONNUMERIC)] if edit == "fill-nonnumeric-scalar" else _NotNumber()
         consulted = any(needs_pad(x) and resolve.in_force(x, base["ctor"], dict(call, fill_value=None))[0] == "fill" for x in opax)
     elif edit == "fill-nonnumeric-mapping":
         f = kw.get("fill_value")
         m = dict(f) if isinstance(f, dict) else ({x: f for x in axn} if f is not None else {})
-        m[a] = "a"
+        m[a] = NONNUMERIC[pick % len(NONNUMERIC)]
         kw2["fill_value"] = m
         consulted = needs_pad(a) and rules[a][0] == "fill"
     axis_arg = axis2 if (len(axis2) > 1 or isinstance(axis, list)) else axis2[0]
